@@ -466,7 +466,9 @@ func (g *Gen) respace(lex string) string {
 	if m == nil {
 		return lex
 	}
-	ws := func() string { return []string{"", "", " ", "\t", "\n", "\r\n", " \r\n "}[g.pick(7)] }
+	ws := func() string {
+		return []string{"", "", " ", "\t", "\n", "\r\n", " \r\n ", " // c\n", "// [9]\r\n", "\n//\n"}[g.pick(10)]
+	}
 	out := "[" + ws()
 	for _, part := range m[1:] {
 		if part != "" {
